@@ -107,7 +107,7 @@ def instances(tier):
     quick = tier == 'quick'
 
     def add(kind, fn, sp, timeout=900, **kw):
-        nm = '%s %s %s' % (spec_name(sp), kind, ' '.join('%s=%s' % kv for kv in sorted(kw.items())))
+        nm = ('%s %s %s' % (spec_name(sp), kind, ' '.join('%s=%s' % kv for kv in sorted(kw.items())))).strip()
         if not any(i.name == nm for i in out):
             out.append(inst(nm.strip(), fn, timeout=timeout, sp=sp, **kw))
 
